@@ -31,11 +31,14 @@ func verifDir() string {
 	if d := os.Getenv("VERIF_DIR"); d != "" {
 		return d
 	}
-	exe, err := os.Executable()
-	if err == nil {
-		return filepath.Dir(filepath.Dir(exe))
-	}
 	return "/verif"
+}
+
+func outDir() string {
+	if d := os.Getenv("VERIF_OUT"); d != "" {
+		return d
+	}
+	return verifDir()
 }
 
 func seed() int64 {
@@ -303,7 +306,7 @@ func drive(ch *fw.Check, tier string, sd int64) int {
 		if nviol > 30 {
 			break
 		}
-		rp := filepath.Join(vd, "replays", ch.ID, fw.Hash(v.Signature+v.CaseID)+".json")
+		rp := filepath.Join(outDir(), "replays", ch.ID, fw.Hash(v.Signature+v.CaseID)+".json")
 		fw.WriteJSON(rp, replayFile{Property: ch.ID, Tier: tier, Seed: sd, Shards: n, V: v})
 		fmt.Printf("VIOLATION property=%s replay=%s\n", ch.ID, rp)
 		fmt.Printf("  rule=%s signature=%s case=%s\n", v.Rule, v.Signature, v.CaseID)
@@ -387,7 +390,7 @@ func drive(ch *fw.Check, tier string, sd int64) int {
 		}
 	}
 	ev["verdict"] = verdict
-	if err := fw.WriteJSON(filepath.Join(vd, "evidence", ch.ID+".json"), ev); err != nil {
+	if err := fw.WriteJSON(filepath.Join(outDir(), "evidence", ch.ID+".json"), ev); err != nil {
 		fmt.Fprintln(os.Stderr, err)
 		return 3
 	}
